@@ -34,7 +34,7 @@ fn cast_check<T: MaybeDynSized<Header = TagHeader> + ?Sized>(b: &Aligned<OBJ>, s
     t
 }
 
-// @harness props=C15 tier=quick panic=allow
+// @harness props=C15,C08 tier=quick panic=allow
 // @encodes DynSizedStructure::<TagHeader>::cast::<T> for user-defined sized T with 0..=6 extra u32 (BASE_SIZE = size_of::<T>())
 // @bound tag size 8..=96 symbolic, contents symbolic, 7 sized types selected by a symbolic index
 #[cfg_attr(kani, kani::proof)]
@@ -144,7 +144,7 @@ macro_rules! builtin_sized {
     }};
 }
 
-// @harness props=C15,C05 tier=quick panic=allow
+// @harness props=C15,C05,C08 tier=quick panic=allow
 // @encodes cast::<T> for the built-in sized kinds: BasicMemoryInfoTag BootdevTag ApmTag EFISdt32Tag EFISdt64Tag EFIImageHandle32Tag EFIImageHandle64Tag EFIBootServicesNotExitedTag ImageLoadPhysAddrTag RsdpV1Tag RsdpV2Tag EndTag
 // @bound tag size 8..=96 symbolic; VBEInfoTag (784 bytes) is covered by c01_vbe
 #[cfg_attr(kani, kani::proof)]
